@@ -39,6 +39,7 @@ const (
 	respLen       = 1 + 8 + 8 + 8
 	maxBatchBytes = 40 << 10
 	retireAfter   = 128 << 20 // a server that allocated this much in one decode is replaced
+	serverAS      = 5 << 30   // address-space limit of a decode server
 )
 
 func selfCPU() time.Duration {
@@ -65,6 +66,16 @@ func measuredDecode(d *decoder, b []byte) measure {
 
 func serverMain() {
 	debug.SetMaxStack(512 << 20)
+	// Address-space limit of the decode server: what the driver set for the worker, but at
+	// most serverAS. One 2^31-byte request still succeeds (and is measured by the allocation
+	// meter); a second one on top of it fails as "out of memory" before gigabytes are touched,
+	// which keeps 24 concurrent servers from exhausting the machine on a tree that copies
+	// hostile-length buffers.
+	var rl syscall.Rlimit
+	if syscall.Getrlimit(syscall.RLIMIT_AS, &rl) == nil && rl.Cur > serverAS {
+		rl.Cur = serverAS
+		syscall.Setrlimit(syscall.RLIMIT_AS, &rl)
+	}
 	br := bufio.NewReaderSize(os.Stdin, 1<<17)
 	bw := bufio.NewWriterSize(os.Stdout, 1<<16)
 	hdr := make([]byte, reqHeaderLen)
